@@ -316,7 +316,7 @@ fn search_props(prop: &str, tier: &str, seed: u64, threads: usize, out: &str) {
         });
         extra.insert("large".into(), format!("{nbig} graphs with 900-1400 nodes"));
     }
-    if ["C04", "C05", "C06", "C09"].contains(&prop) {
+    if ["C04", "C05", "C06", "C09", "C10"].contains(&prop) {
         // the same searches over nodes whose key type has colliding hashes (visited sets, lookups by key)
         exec::new_section();
         let nw = if quick { 120 } else { 1500 };
@@ -330,6 +330,13 @@ fn search_props(prop: &str, tier: &str, seed: u64, threads: usize, out: &str) {
             l.extend(gen_search::graph_lines(&g));
             let kinds: Vec<&str> = match p.as_str() { "C04" => vec!["bfs"], "C05" => vec!["dfs"], "C06" => vec!["pfs-min", "pfs-max"], _ => vec!["bfs", "dfs", "pfs-min", "pfs-max"] };
             for r in 0..g.n {
+                if p == "C10" {
+                    for k in ["pre", "post"] {
+                        l.push(format!("order {k} fwd {r} none nodes"));
+                        l.push(format!("order {k} fwd {r} none edges"));
+                    }
+                    continue;
+                }
                 for k in &kinds {
                     if p == "C09" {
                         l.push(format!("search {k} fwd {r} - none cycle"));
